@@ -64,16 +64,24 @@ def main():
     r = sh(['git', '-C', '/repo', 'apply', patch])
     assert r.returncode == 0, r.stderr
     res = {}
+    # --seeds 0,1 : run every check under each VERIF_SEED; "detected" then means detected under EVERY seed
+    seeds = ['0']
+    if '--seeds' in sys.argv:
+        seeds = sys.argv[sys.argv.index('--seeds') + 1].split(',')
     try:
         for p in pids:
-            r = sh([os.path.join(VERIF, 'check'), p, '--tier', tier] + (['--no-lean'] if '--no-lean' in sys.argv else []),
-                   cwd=VERIF, timeout=3600, env=dict(os.environ, VERIF_EVIDENCE_DIR=tempfile.gettempdir()))
-            viol = [l for l in r.stdout.splitlines() if l.startswith('VIOLATION')]
-            res[p] = dict(rc=r.returncode, violation_lines=viol[:3])
+            per = {}
+            for sd in seeds:
+                r = sh([os.path.join(VERIF, 'check'), p, '--tier', tier] + (['--no-lean'] if '--no-lean' in sys.argv else []),
+                       cwd=VERIF, timeout=3600, env=dict(os.environ, VERIF_EVIDENCE_DIR=tempfile.gettempdir(), VERIF_SEED=sd))
+                viol = [l for l in r.stdout.splitlines() if l.startswith('VIOLATION')]
+                per[sd] = dict(rc=r.returncode, violation_lines=viol[:3])
+            res[p] = dict(rc=max(v['rc'] for v in per.values()), violation_lines=per[seeds[0]]['violation_lines'],
+                          detected_under_seeds=[sd for sd, v in per.items() if v['rc'] == 1 and v['violation_lines']], seeds=seeds)
     finally:
         sh(['git', '-C', '/repo', 'checkout', '--', '.'])
     out['checks'] = res
-    out['detected_by'] = [p for p, v in res.items() if v['rc'] == 1 and v['violation_lines']]
+    out['detected_by'] = [p for p, v in res.items() if v['detected_under_seeds'] == seeds]
     print(json.dumps(out, indent=1))
     print('DETECTED' if pid in out['detected_by'] else 'MISSED', pid, os.path.basename(d))
     return 0
